@@ -47,6 +47,14 @@ impl SlotVersion {
 }
 
 impl ArchetypeVersion {
+    #[cfg(gecs_verif)]
+    #[doc(hidden)]
+    pub(crate) fn __verif_new(version: u32) -> Self {
+        Self {
+            version: NonZeroU32::new(version).unwrap(),
+        }
+    }
+
     #[inline(always)]
     pub(crate) fn start() -> Self {
         Self {
